@@ -218,10 +218,12 @@ Definition no_seek_tell (l : list sop) : bool :=
    np.frombuffer(map, count = point_count, offset = offset_to_point_data): ValueError unless
    the map holds that many whole records (trailing bytes are not records) *)
 Definition read_mmap (f : list Z) : result lasfile :=
+  if (length f =? 0)%nat then Err EValue else      (* mmap.mmap refuses an empty file *)
   do rh <- dec_header f false;
   if rh_compressed rh then Err EValue else
   do ev <- (if h_minor rh >=? 4 then
               if h_nev rh >? 0 then
+                if len f <? h_evstart rh then Err EValue else      (* mmap.seek beyond the end: ValueError *)
                 do r <- dec_vlrs true (Z.to_nat (h_nev rh)) (skipn (Z.to_nat (h_evstart rh)) f);
                 Ok (Some (fst r))
               else Ok (Some [])
